@@ -188,9 +188,13 @@ def case_eos(c: dict) -> dict:
             varr = np.array(float(v))
             b2 = hyd.findHydroBoundaries(varr)
             r.true(f"{name}:velocity-argument-untouched(0-d array)", float(varr) == float(v), before=float(v), after=float(varr))
-            r.true(f"{name}:boundaries-same-for-0-d-array-velocity", all(x is not None for x in b2) and np.array_equal(
-                np.array([float(x) for x in b2]), np.array([float(c1), float(c2), float(Tp2), float(Tm2), float(vmid)])),
-                array=[None if x is None else float(x) for x in b2], scalar=[float(c1), float(c2), float(Tp2), float(Tm2), float(vmid)])
+            # numpy-scalar and Python-float arithmetic differ in the last bit (pow), and a last-bit change of the input can move each
+            # nested root by the solver tolerance: 16 (atol + rtol |x|) per constant, conditioning gamma^2 <= 50 for the fluxes
+            ref5 = np.array([float(c1), float(c2), float(Tp2), float(Tm2), float(vmid)])
+            ok5 = all(x is not None for x in b2)
+            if r.true(f"{name}:boundaries-returned-for-0-d-array-velocity", ok5):
+                r.close(f"{name}:boundaries-same-for-0-d-array-velocity", np.array([float(x) for x in b2]), ref5,
+                        16 * 50 * (tol["atol"] + tol["rtol"] * np.abs(ref5)) + 64 * np.finfo(float).eps * np.abs(ref5))
         except Exception as ex:  # noqa: BLE001
             r.true(f"{name}:boundaries-0-d-array-velocity-no-exception", False, error=repr(ex)[:200], vw=v)
         # findHydroBoundaries re-runs the matching: same numbers (deterministic)
